@@ -57,10 +57,13 @@ class StmtMixin:
     def run_ghost(self, code):
         tree = self.unit.ghost_ast(code)
         self.in_ghost = True
+        saved = self.spec
+        self.spec = True        # ghost code is total: ite(), no branching, no obligations
         try:
             self.exec_block(tree.body)
         finally:
             self.in_ghost = False
+            self.spec = saved
 
     # ---- simple statements
     def s_Pass(self, s):
@@ -107,6 +110,10 @@ class StmtMixin:
         self.assign(s.target, self.binop(s.op, cur, v))
 
     def set_name(self, name, v):
+        if isinstance(v, list):
+            hint = self.unit.local_kind(self, name)
+            if hint and hint.startswith("list[") and not self.frames:
+                v = self.as_vlist(v, self.elem_of(hint[5:-1]))
         if self.nonlocals and name in self.nonlocals[-1]:
             for env in reversed(self.envs[:-1]):
                 if name in env:
